@@ -302,6 +302,9 @@ def _ja_unary_post(x, unary_rules, result):
                 _count('contract:ja.apply_unary_rules:out-of-domain')
                 # shapes the statement does not single out: the label must still be one of the labels it names
                 fam = schemas_ja.unary_family(rx)
+                if fam is None and schemas_ja.unary_plain(rx) and r.op_string in schemas_ja.NAMED_UNARY:
+                    _viol('ja:unary-label', f'type-changing step on {refcat.ref_print(rx)}, which is neither adnominal nor adverbial, '
+                          f'is labelled {r.op_string!r}', {'x': refcat.ref_print(rx), 'got': r.op_string})
                 if fam is not None and (r.op_string not in fam or r.op_symbol != r.op_string):
                     _viol('ja:unary-label', f'type-changing step on {refcat.ref_print(rx)} is labelled {r.op_string!r}/{r.op_symbol!r}; '
                           f'the labels for such inputs are {sorted(fam)}', {'x': refcat.ref_print(rx), 'got': r.op_string})
